@@ -3243,6 +3243,16 @@ func (s *ImmuStore) appendableReaderForTx(txID uint64, allowPrecommitted bool) (
 
 	if txID <= s.committedTxID {
 		txOff, txSize, err = s.txOffsetAndSize(txID)
+		if err == nil {
+			// a record lies within the transaction log: what the commit log says is not taken for granted
+			txLogSize, serr := s.txLog.Size()
+			if serr != nil {
+				return nil, serr
+			}
+			if txOff < 0 || txSize < 0 || int64(txSize) > txLogSize-txOff {
+				return nil, ErrCorruptedCLog
+			}
+		}
 	} else {
 		_, _, txOff, txSize, err = s.cLogBuf.readAhead(int(txID - s.committedTxID - 1))
 	}
